@@ -97,6 +97,14 @@ class C02(HistoryProperty):
         if cands and rng.random() < 0.35:
             for _ in range(rng.randint(1, 2)):
                 ops.insert(rng.randrange(1, len(ops) + 1), {"op": "add_effects", "ds": rng.choice(cands), "n": 1})
+        # registrations of an alias that NO dictionary ever selects, made between evaluations: they change nothing about
+        # any evaluation of this history, so equivalent repeats must still be served from the cache
+        disp = [n["id"] for n in spec["nodes"] if n["k"] == "dataset" and n.get("dispatch") is not None and n.get("cache") == "recording"]
+        if disp and rng.random() < 0.35:
+            vals = [n["id"] for n in spec["nodes"] if n["k"] == "val"]
+            for _ in range(rng.randint(1, 2)):
+                impl = {"n": rng.choice(vals)} if vals else {"fn": f"unused_ov{rng.randrange(99)}", "args": {}}
+                ops.insert(rng.randrange(1, len(ops) + 1), {"op": "register", "ds": rng.choice(disp), "alias": "alias-never-selected", "impl": impl})
         return {"cfg": cfg, "spec": spec, "ops": ops}
 
     def run_case(self, case):
@@ -136,6 +144,11 @@ class C02(HistoryProperty):
             seen = set()
             checked_repeat = False
             for i, op in enumerate(case["ops"]):
+                if op["op"] == "register":
+                    if op["ds"] in w.prog.obj and ("n" not in op["impl"] or op["impl"]["n"] in w.prog.obj):
+                        w.do(op)
+                        res.bump("unrelated_registrations")
+                    continue
                 if op["op"] == "add_effects":
                     if op["ds"] in w.prog.obj:
                         w.do(op)
